@@ -10,6 +10,7 @@ import (
 	"flag"
 	"fmt"
 	"go/ast"
+	"go/build"
 	"go/importer"
 	"go/parser"
 	"go/token"
@@ -66,6 +67,15 @@ func main() {
 
 	for _, n := range names {
 		if strings.HasSuffix(n, "_test.go") || strings.HasPrefix(n, "zz_verif") {
+			continue
+		}
+
+		// honour build constraints the way the compiler building the simulator will (release tags of the
+		// running toolchain, the verif tag): version-gated twins of a file must not both be loaded
+		bctx := build.Default
+		bctx.BuildTags = append(bctx.BuildTags, "verif")
+
+		if ok, err := bctx.MatchFile(".", n); err == nil && !ok {
 			continue
 		}
 
@@ -419,7 +429,7 @@ func (fc *fileCtx) call(call *ast.CallExpr) {
 	case "Map":
 		fn := map[string]string{
 			"Load": "SMLoad", "Store": "SMStore", "Delete": "SMDelete", "Range": "SMRange",
-			"LoadAndDelete": "SMLoadAndDelete", "LoadOrStore": "SMLoadOrStore",
+			"LoadAndDelete": "SMLoadAndDelete", "LoadOrStore": "SMLoadOrStore", "CompareAndDelete": "SMCompareAndDelete",
 		}[name]
 		if fn == "" {
 			fatalf("%s: sync.Map.%s is not modelled by the simulator", fc.label(call.Pos()), name)
